@@ -365,6 +365,20 @@ func runC05(p *core.Prog, r *core.Report, tier string) {
 	if nDeref == 0 {
 		r.Hold("C05.h", "no-maybe-nil-deref", "", "no dereference of a possibly-nil merged pointer in the package")
 	}
+	// results of the package's own (T, error) helpers: a helper that can return (nil, nil) obliges its callers
+	// to test the result before using it (a failed auction must not take the proposal down with it)
+	nHelpers := 0
+	for _, f := range fns {
+		n := f.Signature.Results().Len()
+		if n >= 2 && core.IsErrorType(f.Signature.Results().At(n-1).Type()) {
+			nHelpers++
+		}
+		for _, nd := range core.NilNilDerefs(ds, f) {
+			r.Violate("C05.h", core.FnKey(f)+"|nil-result-deref|"+ds.D(nd.Value).String(), p.Pos(nd.Use.Pos()), "dereference of a call result that "+nd.Why+", without a nil test: the proposal panics instead of carrying on", p.WitnessText(nd.Witness)...)
+			nDeref++
+		}
+	}
+	r.Count("functions returning (T, error) swept for nil-without-error results", nHelpers)
 }
 
 func withClosureCalls(f *ssa.Function, name string) []ssa.CallInstruction {
